@@ -89,6 +89,7 @@ pub fn check_free(ctx: &mut Ctx, t: &str, which: u32) {
                 vio(ctx, "RawBoard::from_fen", t, &format!("formats as {:?} which does not parse back to the same board", s));
             }
         }
+        let _ = total(ctx, "MoveChain::from_fen", t, || MoveChain::from_fen(t).is_ok());
         if let Some(Ok(b)) = total(ctx, "Board::from_fen", t, || Board::from_fen(t)) {
             let s = b.as_fen();
             match Board::from_fen(&s) {
